@@ -10,7 +10,10 @@
    words of a concept are distinct (they are keys of a dictionary). *)
 From Coq Require Import QArith ZArith List Bool Arith Relations Permutation.
 From LV Require Import Common.Cases Cluster.Flat Cluster.FlatQ
-  Cognates.Components Cognates.ComponentsProofs Cognates.Partial Cognates.PartialExec Cognates.PartialProofs.
+  Cognates.Components Cognates.ComponentsProofs Cognates.Partial Cognates.PartialExec Cognates.PartialProofs
+  Cognates.PartialCells.
+From LV Require Wordlist.SerializeStr Wordlist.Serialize.
+From LVGen Require PartialRc.
 Import ListNotations.
 Local Open Scope nat_scope.
 
@@ -131,6 +134,93 @@ Qed.
 Print Assumptions C16_checkers_decide.
 
 (* ------------------------------------------------------------------ *)
+(* the same clauses for ANY clustering routine [clus] (cluster_method 'mcl', 'infomap',
+   an external_function, or the flat linkage methods): [clus] maps the matrix of a concept
+   to the dictionary position -> cluster id it returns.  Contract of a routine:
+   clus_total (every position has an id) and clus_ranged (ids lie in 1..n). *)
+
+(* clause 1 needs no contract at all *)
+Theorem C16_any_clustering_one_id_per_morpheme :
+  forall (dist : list Z -> list Z -> ores) (imap post : bool) (clus : mat -> list (nat * nat))
+         (wl : list concept) (out : pids),
+    Forall (fun c : concept => NoDup (map fst c)) wl ->
+    partial_cluster_any dist imap post clus wl = Ok out ->
+    Forall2 (Forall2 (fun (w : word) (wo : nat * list nat) =>
+                        fst w = fst wo /\ length (snd wo) = nmorph (snd w))) wl out.
+Proof. exact (fun dist imap post clus wl out N H => cluster_loop_any_one_id dist imap post clus wl N 0 out H). Qed.
+Print Assumptions C16_any_clustering_one_id_per_morpheme.
+
+Theorem C16_any_clustering_returns :
+  forall (dist : list Z -> list Z -> ores) (imap post : bool) (clus : mat -> list (nat * nat)) (wl : list concept),
+    (forall a b, exists q, dist a b = Dist q) ->
+    (forall m p, p < length m -> exists v, assoc p (rev (clus m)) = Some v) ->
+    exists out, partial_cluster_any dist imap post clus wl = Ok out.
+Proof. exact (fun dist imap post clus wl T C => cluster_loop_any_total dist imap post clus wl T C 0). Qed.
+Print Assumptions C16_any_clustering_returns.
+
+(* clause 2: with post-processing for every routine; without it for routines whose ids lie in 1..n *)
+Theorem C16_any_clustering_concept_disjoint :
+  forall (dist : list Z -> list Z -> ores) (imap post : bool) (clus : mat -> list (nat * nat))
+         (wl : list concept) (out : pids),
+    (post = true \/
+     forall m p v, p < length m -> assoc p (rev (clus m)) = Some v -> 1 <= v <= length m) ->
+    partial_cluster_any dist imap post clus wl = Ok out ->
+    forall i j, i < j -> j < length out ->
+    forall x, In x (ids_of (nth i out [])) -> ~ In x (ids_of (nth j out [])).
+Proof.
+  exact (fun dist imap post clus wl out R H =>
+           concept_disjoint_nth out (cluster_loop_any_disjoint dist imap post clus wl R 0 out H)).
+Qed.
+Print Assumptions C16_any_clustering_concept_disjoint.
+
+(* clause 3: for every routine, no contract *)
+Theorem C16_any_clustering_unique_in_word :
+  forall (dist : list Z -> list Z -> ores) (imap : bool) (clus : mat -> list (nat * nat))
+         (wl : list concept) (out : pids),
+    partial_cluster_any dist imap true clus wl = Ok out ->
+    forall o, In o out -> forall wo : nat * list nat, In wo o -> NoDup (snd wo).
+Proof.
+  exact (fun dist imap clus wl out H =>
+           unique_in_word_in out (cluster_loop_any_unique dist imap true clus wl eq_refl 0 out H)).
+Qed.
+Print Assumptions C16_any_clustering_unique_in_word.
+
+(* the flat linkage methods are the instance [flat_revert], which meets the contract *)
+Theorem C16_flat_methods_are_an_instance :
+  forall (dist : list Z -> list Z -> ores) (cf : config) (wl : list concept),
+    partial_cluster dist cf wl = partial_cluster_any dist (c_imap cf) (c_post cf) (flat_revert cf) wl /\
+    (forall m p, p < length m -> exists v, assoc p (rev (flat_revert cf m)) = Some v) /\
+    (forall m p v, p < length m -> assoc p (rev (flat_revert cf m)) = Some v -> 1 <= v <= length m).
+Proof.
+  exact (fun dist cf wl => conj (cluster_loop_flat dist cf wl 0)
+                                (conj (flat_revert_total cf) (flat_revert_ranged cf))).
+Qed.
+Print Assumptions C16_flat_methods_are_an_instance.
+
+(* the checker of the contract that runs on what mcl / an external function returned *)
+Theorem C16_contract_checker_decides :
+  forall (n : nat) (rv : list (nat * nat)),
+    clus_okb n rv = true <-> forall p, p < n -> exists v, assoc p (rev rv) = Some v /\ 1 <= v <= n.
+Proof. exact clus_okb_spec. Qed.
+Print Assumptions C16_contract_checker_decides.
+
+(* ------------------------------------------------------------------ *)
+(* partial ids read from a FILE: under every header by which wordlist.rc (as it is in /repo now,
+   translated into gen/PartialRc.v on every run) knows the id-list columns, a cell is converted
+   by x.split() and int(), so blanks before, between and after the ids do not matter: the cell
+   becomes exactly the list of integers that was written.  (Converter semantics:
+   Wordlist/Serialize.parse_cell; [id_cell] writes every id followed by its blanks.) *)
+Theorem C16_file_id_cells_are_blank_insensitive :
+  forall (h : SerializeStr.str) (pad0 : SerializeStr.str) (items : list (Z * SerializeStr.str)),
+    In h id_headers ->
+    forallb SerializeStr.is_space pad0 = true ->
+    pads_ok items ->
+    Serialize.parse_cell (Serialize.class_of PartialRc.partial_rc h) (pad0 ++ id_cell items)
+    = Serialize.VInts (map fst items).
+Proof. exact id_column_cell. Qed.
+Print Assumptions C16_file_id_cells_are_blank_insensitive.
+
+(* ------------------------------------------------------------------ *)
 (* non-vacuity: a wordlist with a repeated morpheme inside a word, two concepts *)
 
 Definition ex_dist (a b : list Z) : ores := Dist (if zlist_eqb a b then 0 else 1)%Q.
@@ -190,3 +280,44 @@ Example ex_checkers_reject :
   strict_exactb [[1]; [1]] [1; 2] = false /\
   loose_exactb [[[1]; [1; 2]; [2]]] [[1; 1; 2]] = false.
 Proof. vm_compute. repeat split; reflexivity. Qed.
+
+(* any clustering routine: everything in one cluster (ids in range), post-processing on *)
+Definition ex_one_cluster (m : mat) : list (nat * nat) := map (fun i => (i, 1)) (seq 0 (length m)).
+
+Example ex_any_one_cluster :
+  partial_cluster_any ex_dist false true ex_one_cluster ex_wl
+  = Ok [[(1, [1; 2]); (2, [1])]; [(3, [5]); (4, [5; 6])]].
+Proof. vm_compute. reflexivity. Qed.
+
+(* a routine outside the contract (ids far above n): with post-processing the clauses still
+   hold; without it the id ranges of two concepts overlap - the premise of
+   C16_any_clustering_concept_disjoint is needed *)
+Definition ex_wild (m : mat) : list (nat * nat) := map (fun i => (i, 5 + 4 * i)) (seq 0 (length m)).
+
+Example ex_any_out_of_range_with_post :
+  partial_cluster_any ex_dist false true ex_wild ex_wl
+  = Ok [[(1, [1; 2]); (2, [3])]; [(3, [5]); (4, [6; 7])]].
+Proof. vm_compute. reflexivity. Qed.
+
+Example ex_any_out_of_range_without_post :
+  partial_cluster_any ex_dist false false ex_wild ex_wl
+  = Ok [[(1, [5; 9]); (2, [13])]; [(3, [9]); (4, [13; 17])]]
+  /\ concept_disjointb [[(1, [5; 9]); (2, [13])]; [(3, [9]); (4, [13; 17])]] = false
+  /\ clus_okb 3 (ex_wild [[]; []; []]) = false
+  /\ clus_okb 3 (ex_one_cluster [[]; []; []]) = true.
+Proof. vm_compute. repeat split; reflexivity. Qed.
+
+
+(* file cells: "1  12 " (doubled blank, trailing blank) under the header partialids is [1; 12];
+   with the converter x.split(" ") the same cell would stay a string *)
+Example ex_file_cell :
+  pads_ok [(1%Z, [32; 32]%Z); (12%Z, [32]%Z)] /\
+  id_cell [(1%Z, [32; 32]%Z); (12%Z, [32]%Z)] = [49; 32; 32; 49; 50; 32]%Z /\
+  Serialize.parse_cell (Serialize.class_of PartialRc.partial_rc
+                          [112; 97; 114; 116; 105; 97; 108; 105; 100; 115]%Z) [49; 32; 32; 49; 50; 32]%Z
+  = Serialize.VInts [1; 12]%Z /\
+  Serialize.parse_cell Serialize.KIntsSp [49; 32; 32; 49; 50; 32]%Z = Serialize.VStr [49; 32; 32; 49; 50; 32]%Z.
+Proof.
+  split; [cbn; repeat split; try reflexivity; intros _; discriminate|].
+  vm_compute. repeat split; reflexivity.
+Qed.
